@@ -79,7 +79,7 @@ prop('C10', 'other',
      drivers=[('bounded.struct', ['--prop', 'C10']), ('bounded.steps', ['--prop', 'C10'])], rule=STRUCT_RULE)
 prop('C05', 'other',
      "PROVED on run_steps / _send_updates / _calculate_update: a step phase runs exactly once after every batch (ghost phase counter, run_steps only reachable through _send_updates in run_for), every deferred step update of a layer is collected exactly once (Defer.get precondition, tokens distinct), all of a layer's updates are computed before any is applied, views are rebuilt after a layer whose updates expired them and before the next layer computes, steps are handed timestep 0 at the only call site. TRUSTED: the layering itself (networkx topological_generations + sorted). BOUNDED: random flow DAGs with derivers, nesting and a structural variant on the real engine.",
-     drivers=[('bounded.steps', ['--prop', 'C05'])])
+     drivers=[('bounded.steps', ['--prop', 'C05']), ('bounded.struct', ['--prop', 'C10'])])
 prop('C04', 'other',
      'PROVED: in run_for every process invocation of one pass happens inside the polling loop, in which no update is applied (apply_update is only reachable through _send_updates after the loop; the loop is verified for an arbitrary visiting order of process_paths); in run_steps no update is applied while a layer is computed (ghost g_version frozen in the compute loop) and the views are valid (rebuilt after any expiring update) before the next layer or the next process is invoked (ghost g_views_valid, precondition of _process_state). BOUNDED: processes started together are shown identical states; steps of one layer see one committed state; the emitted trajectory is identical under permutations of the listing order (relational conclusion, not a postcondition of one call).',
      drivers=[('bounded.steps', ['--prop', 'C04']), ('bounded.sched', ['--prop', 'C04'])])
